@@ -1,4 +1,4 @@
-import OrbitModel.Proofs.ReplInvS
+import OrbitModel.Proofs.ReplInvF
 /-!
 # Replicator: `Inv` is preserved by `cancel`, `deliver`, `acquire`, `fetchFail`
 -/
@@ -53,6 +53,10 @@ theorem joinBatch_nodup {net : Nat → Info} {b log : List Nat} (hn : log.Nodup)
       exact hc.2 (hy ▸ e ▸ hx)
     · rw [if_neg hc]; exact ih hn
 
+theorem mem_removeAt {l l1 l2 : List Worker} {w w' : Worker} {i : Nat} (hw : l = l1 ++ w :: l2)
+    (hrm : removeAt l i = l1 ++ l2) (h : w' ∈ removeAt l i) : w' ∈ l := by
+  rw [hrm] at h; rw [hw]; exact mem_split_of h
+
 /-- `acquire` of a worker whose context is done, before the flush -/
 def acqCancel (s : St) (i hh : Nat) : St :=
   { delTask s hh with workers := removeAt s.workers i, queue := s.queue.filter (· != hh),
@@ -67,8 +71,8 @@ def acqOk (s : St) (i ctx hh : Nat) : St :=
 variable {net : Nat → Info} {c : Nat} {s : St}
 
 theorem Inv.cancel (h : Inv net c s) (ctx : Nat) : Inv net c (step net s (.cancel ctx)) where
-  toInvS := h.toInvS.congr rfl rfl rfl rfl rfl (fun _ => Iff.rfl) id
-  closure := h.closure.congr rfl rfl rfl
+  toInvS := h.toInvS.congr rfl rfl rfl rfl rfl rfl rfl
+  closure := h.closure.congr rfl rfl rfl rfl
   sem_eq := h.sem_eq
   buf_idle := h.buf_idle
 
@@ -77,18 +81,13 @@ theorem Inv.deliver (h : Inv net c s) : Inv net c (step net s .deliver) := by
   | nil => simp only [step, hp]; exact h
   | cons batch rest =>
     simp only [step, hp]
-    have hbp : ∀ k, inBP { s with pending := rest, log := joinBatch net s.log batch } k → inBP s k := by
-      intro k hk
-      rcases hk with hk | ⟨b, hb, hk⟩
-      · exact Or.inl hk
-      · exact Or.inr ⟨b, hp ▸ List.mem_cons_of_mem _ hb, hk⟩
-    refine ⟨⟨h.inprog_eq, h.keys_nodup, h.w_nodup, h.w_task, h.task_w, h.queue_eq, ?_, h.buf_nodup,
-      joinBatch_nodup h.log_nodup, ?_, ?_⟩, ?_, h.sem_eq, h.buf_idle⟩
-    · intro k hk; exact h.bp_fetched k (hbp k hk)
+    refine ⟨⟨h.inprog_eq, h.keys_nodup, h.w_nodup, h.w_task, h.task_w, h.queue_eq, ?_, h.buf_got,
+      h.fin_buf, h.buf_nodup, joinBatch_nodup h.log_nodup, ?_, ?_⟩, ?_, h.sem_eq, h.buf_idle⟩
+    · intro b hb k hk; exact h.pend_fetched b (hp ▸ List.mem_cons_of_mem _ hb) k hk
     · intro k hk
       rcases mem_joinBatch.1 hk with hk | ⟨hk, hv⟩
       · exact h.log_ok k hk
-      · have := h.bp_fetched k (Or.inr ⟨batch, hp ▸ List.mem_cons_self, hk⟩)
+      · have := h.pend_fetched batch (hp ▸ List.mem_cons_self) k hk
         exact ⟨this.1, hv, this.2⟩
     · intro k hk hv hf
       rcases h.fetched_in k hk hv hf with h' | h' | ⟨b, hb, h'⟩
@@ -98,29 +97,29 @@ theorem Inv.deliver (h : Inv net c s) : Inv net c (step net s .deliver) := by
         rcases List.mem_cons.1 hb with rfl | hb
         · exact Or.inl (mem_joinBatch.2 (Or.inr ⟨h', hv⟩))
         · exact Or.inr (Or.inr ⟨b, hb, h'⟩)
-    · intro k hk hf l hl
-      rcases h.closure k hk hf l hl with h' | h' | h'
-      · exact Or.inl (mem_joinBatch.2 (Or.inl h'))
-      · exact Or.inr (Or.inl h')
-      · exact Or.inr (Or.inr h')
+    · exact h.closure.transfer (fun k _ hk => hk)
+        (tracked_of (fun k hk => mem_joinBatch.2 (Or.inl hk)) (fun k hk => Or.inl hk) (fun k hk => hk))
 
 /-- a worker gives up on `w.item`: the hash moves from `tasks` to `failed` -/
 theorem Closure.drop {s' : St} (h : Closure net s) {hh : Nat}
     (h2 : s'.tasks = s.tasks.filter (·.1 != hh)) (h5 : s'.log = s.log)
-    (h8 : s'.failed = hh :: s.failed) : Closure net s' := by
+    (h8 : s'.failed = hh :: s.failed) (hwk : ∀ w ∈ s'.workers, w ∈ s.workers) : Closure net s' := by
   have ht := lookup_filter_task h2
-  intro k hk hf l hl
-  rw [ht] at hk
-  by_cases e : hh = k
-  · simp [e] at hk
-  · simp only [e, if_false] at hk
-    rcases h k hk hf l hl with h' | h' | h'
-    · exact Or.inl (h5 ▸ h')
-    · by_cases e' : hh = l
-      · exact Or.inr (Or.inr (h8 ▸ e' ▸ List.mem_cons_self))
-      · refine Or.inr (Or.inl ?_)
-        rw [ht]; simp only [e', if_false]; exact h'
-    · exact Or.inr (Or.inr (h8 ▸ List.mem_cons_of_mem _ h'))
+  apply h.transfer
+  · intro k _ hk
+    refine got_mono ?_ (fun w hw _ => hwk w hw) hk
+    intro k hk
+    rw [ht] at hk
+    by_cases e : hh = k
+    · simp [e] at hk
+    · simpa only [e, if_false] using hk
+  · apply tracked_of
+    · intro k hk; exact h5 ▸ hk
+    · intro k hk
+      by_cases e : hh = k
+      · exact Or.inr (h8 ▸ e ▸ List.mem_cons_self)
+      · left; rw [ht]; simp only [e, if_false]; exact hk
+    · intro k hk; exact h8 ▸ List.mem_cons_of_mem _ hk
 
 theorem Inv.acquire (h : Inv net c s) (i : Nat) : Inv net c (step net s (.acquire i)) := by
   cases hwi : s.workers[i]? with
@@ -129,6 +128,7 @@ theorem Inv.acquire (h : Inv net c s) (i : Nat) : Inv net c (step net s (.acquir
     obtain ⟨ctx, hh, pc⟩ := w
     cases pc with
     | fetching => simp only [step, hwi]; exact h
+    | finishing => simp only [step, hwi]; exact h
     | waitSlot =>
       simp only [step, hwi]
       obtain ⟨l1, l2, hw, _, hrm, hset⟩ := split_at hwi
@@ -138,14 +138,15 @@ theorem Inv.acquire (h : Inv net c s) (i : Nat) : Inv net c (step net s (.acquir
       · rw [if_pos hc]
         show Inv net c (flush (acqCancel s i hh))
         have hS : InvS net (acqCancel s i hh) := by
-          refine h.toInvS.drop (w := ⟨ctx, hh, .waitSlot⟩) hw hrm rfl ?_ ?_ rfl rfl rfl
+          refine h.toInvS.drop (w := ⟨ctx, hh, .waitSlot⟩) hw (by simp) hrm rfl ?_ ?_ rfl rfl rfl
           · show s.inProgress = _
-            rw [h.inprog_eq, hw]; simp [List.countP_append, isFetch]
+            rw [h.inprog_eq, hw]; simp [List.countP_append]
           · show s.queue.filter (· != hh) = _
             rw [h.queue_eq, hw]
             exact queue_drop (w := ⟨ctx, hh, .waitSlot⟩) rfl hne
         have hC : Closure net (acqCancel s i hh) := h.closure.drop (hh := hh) rfl rfl rfl
-        exact Inv.finish 0 hS hC h.sem_eq
+          (fun w hm => mem_removeAt hw hrm hm)
+        exact Inv.flushed 0 hS hC h.sem_eq
       · rw [if_neg hc]
         by_cases h0 : s.sem = 0
         · rw [if_pos h0]; exact h
@@ -155,19 +156,25 @@ theorem Inv.acquire (h : Inv net c s) (i : Nat) : Inv net c (step net s (.acquir
           have htk := lookup_set_task (s := s) (s' := acqOk s i ctx hh) (h := hh) (t := .fetching) rfl
           have ht : task (acqOk s i ctx hh) hh = some .fetching := by rw [htk]; simp
           refine ⟨hS, ?_, ?_, fun _ => isIdle_false_of_task ht (by simp)⟩
-          · intro k hk hf l hl
-            rw [htk] at hk
-            by_cases e : hh = k
-            · simp [e] at hk
-            · simp only [e, if_false] at hk
-              rcases h.closure k hk hf l hl with h' | h' | h'
-              · exact Or.inl h'
-              · refine Or.inr (Or.inl ?_)
-                rw [htk]
-                by_cases e' : hh = l
-                · simp [e']
-                · simp only [e', if_false]; exact h'
-              · exact Or.inr (Or.inr h')
+          · apply h.closure.transfer
+            · intro k _ hk
+              refine got_mono ?_ ?_ hk
+              · intro k hk
+                rw [htk] at hk
+                by_cases e : hh = k
+                · simp [e] at hk
+                · simpa only [e, if_false] using hk
+              · intro w hm hp
+                have hm' : w ∈ s.workers.set i ⟨ctx, hh, .fetching⟩ := hm
+                rw [hset] at hm'
+                rw [hw]
+                exact mem_swap hm' (fun e => by rw [e] at hp; cases hp)
+            · refine tracked_of (s := s) (s' := acqOk s i ctx hh) (fun k hk => hk) ?_ (fun k hk => hk)
+              intro k hk
+              left; rw [htk]
+              by_cases e : hh = k
+              · simp [e]
+              · simp only [e, if_false]; exact hk
           · show s.sem - 1 + (s.inProgress + 1) = c
             have := h.sem_eq; omega
 
@@ -178,23 +185,24 @@ theorem Inv.fetchFail (h : Inv net c s) (i : Nat) : Inv net c (step net s (.fetc
     obtain ⟨ctx, hh, pc⟩ := w
     cases pc with
     | waitSlot => simp only [step, hwi]; exact h
+    | finishing => simp only [step, hwi]; exact h
     | fetching =>
       simp only [step, hwi]
       obtain ⟨l1, l2, hw, _, hrm, _⟩ := split_at hwi
       have hnd := h.w_nodup; rw [hw] at hnd
       obtain ⟨_, hne⟩ := nodup_split hnd
-      have hip : s.inProgress = (l1 ++ l2).countP isFetch + 1 := by
-        rw [h.inprog_eq, hw]; simp [List.countP_append, isFetch]; omega
+      have hip : s.inProgress = (l1 ++ l2).countP isHold + 1 := by
+        rw [h.inprog_eq, hw]; simp [List.countP_append, List.countP_cons]; omega
       rw [failedDone_eq]
       have hS : InvS net (failPre { s with workers := removeAt s.workers i } hh) := by
-        refine h.toInvS.drop (w := ⟨ctx, hh, .fetching⟩) hw hrm rfl ?_ ?_ rfl rfl rfl
+        refine h.toInvS.drop (w := ⟨ctx, hh, .fetching⟩) hw (by simp) hrm rfl ?_ ?_ rfl rfl rfl
         · show s.inProgress - 1 = _
           omega
         · show s.queue = _
-          rw [h.queue_eq, hw]; simp [List.filter_append, isWait]
+          rw [h.queue_eq, hw]; simp [List.filter_append]
       have hC : Closure net (failPre { s with workers := removeAt s.workers i } hh) :=
-        h.closure.drop (hh := hh) rfl rfl rfl
-      refine Inv.finish 1 hS hC ?_
+        h.closure.drop (hh := hh) rfl rfl rfl (fun w hm => mem_removeAt hw hrm hm)
+      refine Inv.flushed 1 hS hC ?_
       show s.sem + 1 + (s.inProgress - 1) = c
       have := h.sem_eq; omega
 
